@@ -223,7 +223,17 @@ fn json_part(cx: &mut Cx, victim: NodeId, h: Arc<Honest>, ai: usize, kind: usize
             0 => { for n in 0..=text.len() { if text.is_char_boundary(n) { frames.push((format!("truncated@{n}"), text[..n].to_string())); } } }
             1 => {
                 // wrong types: every string / number / array leaf replaced
-                for (k, rep) in [("null", "null"), ("int", "7"), ("neg", "-1"), ("float", "1e400"), ("emptystr", "\"\""), ("nonhex", "\"zz\""), ("oddhex", "\"abc\""), ("arr", "[]"), ("obj", "{}"), ("bool", "true"), ("deep", "[[[[[[[[[[[[[[[[[[[[[[[[[[[[[[[[]]]]]]]]]]]]]]]]]]]]]]]]]]]]]]]]")] {
+                // (strings of every length some codec of the library knows -- 32-octet scalars, 48 / 96
+                //  octet compressed and 96 / 192 octet uncompressed points, in hex -- that are not hex:
+                //  a decoder that dispatches on the length must still fail cleanly)
+                let odd_strings: Vec<(String, String)> = [64usize, 96, 192, 384].iter().flat_map(|&n| [
+                    (format!("nonhex_tail{n}"), format!("\"{}z\"", "a".repeat(n - 1))),
+                    (format!("nonhex_head{n}"), format!("\"g{}\"", "0".repeat(n - 1))),
+                    (format!("utf8_{n}"), format!("\"{}\"", "\u{e9}".repeat(n / 2))),
+                    (format!("upperhex{n}"), format!("\"{}\"", "AB".repeat(n / 2))),
+                ]).collect();
+                let fixed: Vec<(String, String)> = [("null", "null"), ("int", "7"), ("neg", "-1"), ("float", "1e400"), ("emptystr", "\"\""), ("nonhex", "\"zz\""), ("oddhex", "\"abc\""), ("arr", "[]"), ("obj", "{}"), ("bool", "true"), ("deep", "[[[[[[[[[[[[[[[[[[[[[[[[[[[[[[[[]]]]]]]]]]]]]]]]]]]]]]]]]]]]]]]]")].iter().map(|(a, b)| (a.to_string(), b.to_string())).collect();
+                for (k, rep) in fixed.iter().chain(odd_strings.iter()).map(|(a, b)| (a.as_str(), b.as_str())) {
                     let mut start = 0;
                     while let Some(p) = text[start..].find('"') {
                         let a = start + p;
